@@ -1139,7 +1139,14 @@ Verdict run_case(Choices& c, CaseLog& log)
                             ld tol = 4 * (fabsl(tr1 - tr0) + fabsl(tr2 - tr0))
                                      + 64 * eps * (fabsl(tr0) + g);
                             if (gp.alpha != MscStep::small_step_alpha())
-                                tol += 16 * eps / fabsl((ld)gp.alpha);
+                            {
+                                // the rounding of (1 - x) (absolute eps/2) is
+                                // amplified by the exponent 1/w
+                                ld a = gp.alpha;
+                                ld w = 1 + 1 / (a * lambda);
+                                tol += 16 * eps * (1 + 1 / fabsl(w))
+                                       / fabsl(a);
+                            }
                             if (fabsl(tb - want) > tol)
                                 return log.fail(
                                     "MscStepFromGeo(" + fmt(g) + ") = "
